@@ -498,7 +498,9 @@ func (p *parser) parseFieldNode1(flags a.Flags) (*a.Node, error) {
 	if err != nil {
 		return nil, err
 	}
-	if pkg := typ.Innermost().QID()[0]; (pkg != 0) && (pkg != t.IDBase) {
+	if pkg := typ.Innermost().QID()[0]; pkg != t.IDBase {
+		// Struct-typed fields, from this package (0) or another one, live in
+		// the private_data part, whichever section they were declared in.
 		flags |= a.FlagsPrivateData
 	}
 	return a.NewField(flags, name, typ).AsNode(), nil
